@@ -1793,7 +1793,7 @@ const K: usize = 5;
 /// C05: a multi-block history fed to K instances by different legal call orders
 async fn gen_c05(w: &mut World, g: &mut Gen, heights: usize) {
     w.run(&format!("abci reset k={K}")).await;
-    for _ in 0..heights {
+    for hh in 0..heights {
         refresh(w, g).await;
         let height = committed_height(&w.insts[0]).await + 1;
         let adversarial = g.rng.chance(30);
@@ -1878,7 +1878,8 @@ async fn gen_c05(w: &mut World, g: &mut Gen, heights: usize) {
         // transaction): every node rejects it in ProcessProposal, FinalizeBlock ignores the
         // failing transaction on every path
         let mut decided = decided;
-        if g.rng.chance(8) {
+        // (only at the last height of a session: FinalizeBlock may fail on every node)
+        if hh + 1 == heights && g.rng.chance(60) {
             let m = g.blk();
             let r = w
                 .run(&format!("abci mutate b=b{m} from=b{decided} k=dup x={}", g.rng.below(64)))
